@@ -28,6 +28,7 @@ func init() {
 			ruleFlushRendezvous(r, "P6")
 			ruleC20P4(r, le)
 			ruleC20P5(r, cut)
+			ruleC01R2(r, cut) // registered under id R2: every cut, whatever triggered it, resets the size the policy is asked about
 		},
 	})
 }
